@@ -196,8 +196,13 @@ impl Mac {
         }?;
         let (mut tx_config, tx_channel) =
             self.region.create_tx_config(rng, self.configuration.data_rate, &Frame::Data);
+        // The level commanded by the network can only lower the power further: the board's
+        // maximum still applies.
         tx_config.adjust_power(
-            self.configuration.tx_power.unwrap_or(self.board_eirp.max_power),
+            core::cmp::min(
+                self.configuration.tx_power.unwrap_or(self.board_eirp.max_power),
+                self.board_eirp.max_power,
+            ),
             self.board_eirp.antenna_gain,
         );
         Ok((tx_config, self.rx_windows(&tx_channel), fcnt))
